@@ -88,9 +88,31 @@ Definition session_choice (s t : session) : Prop :=
   opt_contact_choice (s_channels s) (related_contact (s_parent s)) (related_contact (s_parent t)) /\
   opt_contact_choice (s_channels s) (related_contact (s_child s)) (related_contact (s_child t)).
 
-(* at most one tel channel can be used to send to the numbers of any one country *)
-Definition unambiguous_tel (chans : list channel) : Prop :=
-  forall country, (List.length (filter (tel_candidate role_send country) chans) <= 1)%nat.
+(* for this URN: if it is a tel URN, at most one channel can be used to send to the numbers of ITS country
+   (tel_candidate with the URN's derived country; a URN whose country cannot be derived, "", has every tel send
+   channel as a candidate) *)
+Definition tel_unambiguous (chans : list channel) (u : urn) : Prop :=
+  String.eqb (u_scheme u) tel = true ->
+  (List.length (filter (tel_candidate role_send (u_country u)) chans) <= 1)%nat.
+
+Definition opt_contact_urns (c : option contact) : list urn :=
+  match c with Some c => c_urns c | None => [] end.
+
+(* the URN lists channel resolution is run on: the contact's, the parent summary's and the child summary's *)
+Definition session_urns (s : session) : list urn :=
+  (opt_contact_urns (s_contact s) ++ opt_contact_urns (related_contact (s_parent s))
+   ++ opt_contact_urns (related_contact (s_child s)))%list.
+
+Definition unambiguous_tel (s : session) : Prop :=
+  Forall (tel_unambiguous (s_channels s)) (session_urns s).
+
+(* a sufficient condition on the deployment: at most one tel send channel per (known) country ... *)
+Definition one_tel_channel_per_country (chans : list channel) : Prop :=
+  forall country, country <> "" ->
+    (List.length (filter (tel_candidate role_send country) chans) <= 1)%nat.
+(* ... and numbers whose country can be derived *)
+Definition tel_countries_known (s : session) : Prop :=
+  Forall (fun u => String.eqb (u_scheme u) tel = true -> u_country u <> "") (session_urns s).
 
 (* what a template evaluation is given: the root context and the merged environment *)
 Definition view (e : env) (s : session) : xv * env_view := (root_context e s, merged_env e s).
@@ -181,24 +203,25 @@ Proof.
 Qed.
 
 (* with at most one candidate per country the path is never looked at *)
-Lemma unambiguous_same_choice : forall chans u v, unambiguous_tel chans -> urn_twin u v -> same_choice chans u v.
+Lemma unambiguous_same_choice : forall chans u v, tel_unambiguous chans u -> urn_twin u v -> same_choice chans u v.
 Proof.
   intros chans u v Hu (Hs & Ha & Hc). unfold same_choice, get_for_urn, explicit_channel.
   rewrite <- Ha.
   assert (Hsc : scheme_choice chans u role_send = scheme_choice chans v role_send).
-  { unfold scheme_choice. rewrite <- Hs, <- Hc.
+  { unfold scheme_choice. rewrite <- Hs, <- Hc. unfold tel_unambiguous in Hu.
     destruct (String.eqb (u_scheme u) tel); [|reflexivity].
-    specialize (Hu (u_country u)).
+    specialize (Hu eq_refl).
     destruct (filter (tel_candidate role_send (u_country u)) chans) as [|c1 [|c2 rest]];
       [reflexivity | reflexivity | cbn in Hu; lia]. }
   rewrite Hsc. reflexivity.
 Qed.
 
-Lemma unambiguous_choice_list : forall chans us vs, unambiguous_tel chans -> Forall2 urn_twin us vs ->
+Lemma unambiguous_choice_list : forall chans us vs, Forall (tel_unambiguous chans) us -> Forall2 urn_twin us vs ->
   Forall2 (same_choice chans) us vs.
 Proof.
-  intros chans us vs Hu H. induction H as [|u v us vs Huv _ IH]; constructor;
-    [apply unambiguous_same_choice; assumption | exact IH].
+  intros chans us vs Hu H. induction H as [|u v us vs Huv _ IH]; [constructor|].
+  inversion Hu as [|? ? Hhd Htl]; subst. constructor;
+    [apply unambiguous_same_choice; assumption | apply IH; exact Htl].
 Qed.
 
 (* ------------------------------------------------------------------------------------------------ *)
@@ -338,22 +361,33 @@ Proof.
           (conj (merged_env_twin e s t Ht Hc) (noninterference_given_choice e s t Hr Ht Hc))).
 Qed.
 
-Lemma session_choice_of_unambiguous : forall s t, unambiguous_tel (s_channels s) -> session_twin s t ->
+Lemma session_choice_of_unambiguous : forall s t, unambiguous_tel s -> session_twin s t ->
   session_choice s t.
 Proof.
   intros s t Hu (c & i & p & ch & Hc & _ & Hp & Hch & ->).
-  assert (K : forall a b, opt_rel contact_twin a b -> opt_contact_choice (s_channels s) a b).
-  { intros a b H. destruct H as [|a b (us & Hus & ->)]; [exact I|]. cbn. unfold contact_choice.
-    cbn [c_urns with_urns]. apply unambiguous_choice_list; assumption. }
-  assert (KR : forall a b, opt_rel related_twin a b ->
+  unfold unambiguous_tel, session_urns in Hu.
+  apply Forall_app in Hu. destruct Hu as [U1 Hu]. apply Forall_app in Hu. destruct Hu as [U2 U3].
+  assert (K : forall a b, Forall (tel_unambiguous (s_channels s)) (opt_contact_urns a) ->
+                          opt_rel contact_twin a b -> opt_contact_choice (s_channels s) a b).
+  { intros a b U H. destruct H as [|a b (us & Hus & ->)]; [exact I|]. cbn. unfold contact_choice.
+    cbn [c_urns with_urns]. cbn [opt_contact_urns] in U. apply unambiguous_choice_list; assumption. }
+  assert (KR : forall a b, Forall (tel_unambiguous (s_channels s)) (opt_contact_urns (related_contact a)) ->
+                           opt_rel related_twin a b ->
                            opt_contact_choice (s_channels s) (related_contact a) (related_contact b)).
-  { intros a b H. destruct H as [|a b (c0 & Hc0 & ->)]; [exact I|]. cbn [related_contact with_related_contact r_contact].
-    apply K. exact Hc0. }
+  { intros a b U H. destruct H as [|a b (c0 & Hc0 & ->)]; [exact I|].
+    cbn [related_contact with_related_contact r_contact] in *. apply K; assumption. }
   unfold session_choice. cbn [with_parts s_channels s_contact s_parent s_child].
-  split; [apply K; exact Hc | split; apply KR; assumption].
+  split; [apply K; assumption | split; apply KR; assumption].
 Qed.
 
-Lemma noninterference_unambiguous : forall e s t, redact e = true -> unambiguous_tel (s_channels s) ->
+Lemma per_country_unambiguous : forall s,
+  one_tel_channel_per_country (s_channels s) -> tel_countries_known s -> unambiguous_tel s.
+Proof.
+  intros s H1 H2. unfold unambiguous_tel, tel_countries_known in *.
+  eapply Forall_impl; [|exact H2]. intros u Hk Ht. apply H1. apply Hk. exact Ht.
+Qed.
+
+Lemma noninterference_unambiguous : forall e s t, redact e = true -> unambiguous_tel s ->
   session_twin s t ->
   forall (Out : Type) (template : xv -> env_view -> Out),
     template (root_context e s) (merged_env e s) = template (root_context e t) (merged_env e t).
@@ -401,17 +435,46 @@ Proof.
   constructor; [repeat split | constructor].
 Qed.
 
-Lemma ex_unambiguous : unambiguous_tel ex_one_channel.
+Lemma ex_unambiguous : forall us, unambiguous_tel (ex_session ex_one_channel us).
 Proof.
-  intro country. unfold ex_one_channel. cbn [filter].
-  destruct (tel_candidate role_send country (ex_channel "A" "Android" "+17036975131" [])); cbn; lia.
+  intro us. unfold unambiguous_tel, session_urns. cbn [ex_session s_contact s_parent s_child related_contact
+    opt_contact_urns ex_contact c_urns s_channels]. rewrite !app_nil_r.
+  apply Forall_forall. intros u _ _. unfold ex_one_channel. cbn [filter].
+  destruct (tel_candidate role_send (u_country u) (ex_channel "A" "Android" "+17036975131" [])); cbn; lia.
 Qed.
 
 (* the hypotheses of noninterference_unambiguous hold for a pair of sessions whose contexts differ without the policy *)
 Example twin_hypotheses_satisfiable :
-  redact ex_env = true /\ unambiguous_tel (s_channels (ex_session ex_one_channel [ex_tel "+12065551212"])) /\
+  redact ex_env = true /\ unambiguous_tel (ex_session ex_one_channel [ex_tel "+12065551212"]) /\
   session_twin (ex_session ex_one_channel [ex_tel "+12065551212"]) (ex_session ex_one_channel [ex_tel "+14155559999"]).
-Proof. split; [reflexivity | split; [exact ex_unambiguous | apply ex_twin]]. Qed.
+Proof. split; [reflexivity | split; [apply ex_unambiguous | apply ex_twin]]. Qed.
+
+(* a deployment with one tel channel per country (RW, UG; neither international) is covered for contacts with
+   RW numbers, although it has two tel send channels in total *)
+Definition ex_rw_ug : list channel :=
+  [ {| ch_uuid := "R"; ch_name := "RW Line"; ch_address := "+250788000000"; ch_schemes := ["tel"];
+       ch_roles := ["send"; "receive"]; ch_country := "RW"; ch_prefixes := []; ch_intl := false |};
+    {| ch_uuid := "U"; ch_name := "UG Line"; ch_address := "+256700000000"; ch_schemes := ["tel"];
+       ch_roles := ["send"; "receive"]; ch_country := "UG"; ch_prefixes := []; ch_intl := false |} ].
+Definition ex_tel_rw (path : string) : urn :=
+  {| u_scheme := "tel"; u_path := path; u_display := ""; u_affinity := ""; u_country := "RW";
+     u_plain := "tel:" ++ path; u_fmt := path |}.
+
+Example multi_country_deployment_covered :
+  one_tel_channel_per_country ex_rw_ug /\
+  tel_countries_known (ex_session ex_rw_ug [ex_tel_rw "+250788123123"]) /\
+  unambiguous_tel (ex_session ex_rw_ug [ex_tel_rw "+250788123123"]) /\
+  List.length (filter (tel_candidate role_send "") ex_rw_ug) = 2%nat.
+Proof.
+  assert (P : one_tel_channel_per_country ex_rw_ug).
+  { intros country Hne. unfold ex_rw_ug. cbn [filter]. unfold tel_candidate. cbn -[String.eqb].
+    destruct (String.eqb_spec country ""); [contradiction|]. cbn -[String.eqb].
+    destruct (String.eqb_spec country "RW") as [->|]; [cbn; lia|]. cbn -[String.eqb].
+    destruct (String.eqb country "UG"); cbn; lia. }
+  assert (K : tel_countries_known (ex_session ex_rw_ug [ex_tel_rw "+250788123123"])).
+  { unfold tel_countries_known. cbn. constructor; [intros _; discriminate | constructor]. }
+  split; [exact P | split; [exact K | split; [apply per_country_unambiguous; assumption | reflexivity]]].
+Qed.
 
 (* two tel channels of one country: the one chosen, hence @contact.channel, depends on the leading digits *)
 Lemma noninterference_refuted_witness :
@@ -595,6 +658,58 @@ Proof.
           | apply agree_eq; first [exact E1 | exact E2 | exact E3]
           | apply agree_eq; apply blank_obj; [reflexivity|];
             repeat (first [apply Forall2_nil | apply Forall2_cons]); first [apply agree_same | apply agree_eq; exact E1] ].
+Qed.
+
+(* the merged environment: its country comes from the channel chosen for the contact, so it can differ too, and only
+   when the countries of the chosen channels differ *)
+Definition chosen_country (s : session) : option string :=
+  match s_contact s with
+  | Some c => option_map ch_country (preferred_channel (s_channels s) (c_urns c))
+  | None => None
+  end.
+
+Lemma merged_env_up_to_channel_country : forall e s t, session_twin s t ->
+  chosen_country s = chosen_country t -> merged_env e s = merged_env e t.
+Proof.
+  intros e s t (c & i & p & ch & Hc & _ & _ & _ & ->). unfold chosen_country, merged_env, merged_country.
+  cbn [with_parts s_channels s_contact]. intro H. f_equal.
+  destruct Hc as [|a b (us & Hus & ->)]; [reflexivity|].
+  unfold contact_country. cbn [c_urns with_urns] in *.
+  rewrite <- (first_tel_country_twin _ _ Hus).
+  destruct (preferred_channel (s_channels s) (c_urns a)) as [c1|],
+           (preferred_channel (s_channels s) us) as [c2|]; cbn in H; try discriminate; [|reflexivity].
+  injection H as H. rewrite H. reflexivity.
+Qed.
+
+Lemma up_to_channel_all : forall e s t, redact e = true -> session_twin s t ->
+  blank "channel" (root_context e s) = blank "channel" (root_context e t) /\
+  v_redact (merged_env e s) = v_redact (merged_env e t) /\
+  (chosen_country s = chosen_country t -> merged_env e s = merged_env e t).
+Proof.
+  intros e s t Hr Ht. split; [apply root_context_up_to_channel; assumption|].
+  split; [reflexivity | apply merged_env_up_to_channel_country; exact Ht].
+Qed.
+
+(* ... and it does: a RW channel and an international UG channel with prefix 25073; the twins' RW numbers start with
+   25078 / 25073; contexts equal up to "channel", environment countries RW / UG *)
+Definition ex_rw_ug_intl : list channel :=
+  [ {| ch_uuid := "R"; ch_name := "RW Line"; ch_address := "+25078"; ch_schemes := ["tel"];
+       ch_roles := ["send"; "receive"]; ch_country := "RW"; ch_prefixes := []; ch_intl := false |};
+    {| ch_uuid := "U"; ch_name := "UG Intl"; ch_address := "+256700000000"; ch_schemes := ["tel"];
+       ch_roles := ["send"; "receive"]; ch_country := "UG"; ch_prefixes := ["25073"]; ch_intl := true |} ].
+
+Example merged_country_depends_on_path :
+  let s := ex_session ex_rw_ug_intl [ex_tel_rw "+250788123123"] in
+  let t := ex_session ex_rw_ug_intl [ex_tel_rw "+250738123123"] in
+  session_twin s t /\
+  blank "channel" (root_context ex_env s) = blank "channel" (root_context ex_env t) /\
+  v_country (merged_env ex_env s) = "RW" /\ v_country (merged_env ex_env t) = "UG".
+Proof.
+  cbv zeta. split.
+  - exists (Some (ex_contact [ex_tel_rw "+250738123123"])), None, None, None.
+    repeat split; try constructor. exists [ex_tel_rw "+250738123123"]. split; [|reflexivity].
+    constructor; [repeat split | constructor].
+  - vm_compute. repeat split; reflexivity.
 Qed.
 
 (* the witness of the refutation differs only there *)
